@@ -504,3 +504,28 @@ def gen_equalfan(rnd):
     ]
     return {"family": "equalfan", "steps": steps, "timeout": None, "externals": [], "meta": {"k": k, "nw": nw, "lats": lats}}
 
+
+def gen_waitsink(rnd):
+    """A sink step handles one item at a time: waits for the human's answer under ONE waiter id reused by every invocation (or the
+    engine-derived default without requirements in the id), records it and returns None.  Invocations do not overlap (items are
+    spaced wider than the answers take), so each invocation must wait for, and get, its own answer."""
+    n = rnd.randint(2, 4)
+    gap = 4
+    use_default = rnd.random() < 0.4
+    wait = {"k": "wait", "type": "Answer", "req": {"key": "{v}"}, "wid": "w-{uid}", "ask": "Ask"}
+    if use_default:
+        wait["req"] = {}
+        wait["wid"] = None          # engine-derived id: identical for every invocation when there are no requirements
+    else:
+        wait["engine_wid"] = "w-shared"
+    steps = [
+        {"name": "start", "in": ["Go"], "nw": 1, "acts": [{"k": "send", "type": "EvD", "items": [{"lat": [0]} for _ in range(n)], "gap": gap}, {"k": "ret", "type": None}],
+         "declare": ["EvD", "EvU"]},
+        {"name": "ask", "in": ["EvD"], "nw": rnd.choice([1, 2]), "acts": [{"k": "sleep", "d": {"from": "lat"}}, wait, {"k": "state", "op": "append", "key": "seen"}, {"k": "ret", "type": None}]},
+        {"name": "closer", "in": ["EvU"], "nw": 1, "acts": [{"k": "ret", "type": "StopEvent", "result": "const"}]},
+    ]
+    replies = [{"delay": rnd.choice([0.5, 1, 2]), "type": "Answer", "pay": {"key": "{v}"}}]
+    spec = {"family": "waitsink", "steps": steps, "timeout": None, "responders": [{"on": "Ask", "replies": replies}],
+            "externals": [{"at": gap * n + 5, "type": "EvU", "pay": {}}], "meta": {"n": n, "style": "once", "timeout": None, "req": not use_default, "may_wait_forever": False}}
+    return spec
+
